@@ -23,6 +23,8 @@ LEVELS = {
     "C19": dict(text="Proof of per-party invariants on the real text of Bdd::node (send clause), Bdd::recv (loop), with_sender/with_receiver/with_sender_receiver/set_*: producer, mirror and relay invariants over a prophetic FIFO channel model, recv's return value, termination of recv; lemma_mirror / lemma_relay compose them. All interleavings are covered because each invariant is local to one party - relative to the assumed channel semantics.",
                 note=TB + "crossbeam_channel FIFO/lossless/atomic for one sender and one receiver on a fresh channel is ASSUMED (stub); no thread interleaving is explored.", design_ref="DESIGN.md section 5 C19"),
 }
+LEVELS["C20"] = dict(text="Proof, unbounded: the real text of TwoValuedInterpretationsIterator::{new,next} and ThreeValuedInterpretationsIterator::{new,next,decrement,decrement_vec} (iterator chains lowered mechanically to index loops) is verified against successor/predecessor specifications of a binary / ternary odometer over the undecided positions, with injectivity, range and surjectivity lemmas giving: every completion/refinement exactly once, the interpretation itself first (three-valued), decided positions never altered. All vector lengths, all contents.",
+                     note=TB + "Outlined std expressions: bool::then_some, slice->Vec into(). The final 'each value visited once by unit steps' composition is arithmetic over the contracts.", design_ref="DESIGN.md section 5 C20")
 NOT_APPLICABLE = {
     "C04": "completeness of the counting-guided pruning search needs a whole-recursion invariant over search history, outside per-function contracts (DESIGN section 6); the sub-functions it uses are under contract elsewhere",
     "C08": "nom combinator parser over &str: Verus has no str byte reasoning and cannot type the combinator closures; Kani did not finish 4 symbolic bytes (DESIGN section 6)",
